@@ -232,11 +232,9 @@ def run(ck, m):
     ck.ob("R5", vs, conv == ["round"], f"_valid_size converts computed (float) dimensions with {conv}; only round() keeps a dimension that is mathematically equal to the frame's from coming out one cell short",
           stmt="_valid_size: float dimensions converted with round() only")
     # ---- shared with C09.R5: a frame cached by ImageIterator follows a dynamic size (keyed by hash(image.rendered_size), re-validated)
-    from tiv.report import Scoped
+    from tiv.report import borrow
     import rules.c09 as c09
-    sc9 = Scoped(ck, "R3", lambda c: c.endswith("ImageIterator._animate"), rids={"R5"})
-    c09.run(sc9, m)
-    ck.expect(sc9.kept >= 4, f"expected the ImageIterator cache obligations of C09.R5 (got {sc9.kept})")
+    borrow(ck, c09, m, "R3", lambda c: c.endswith("ImageIterator._animate"), rids={"R5"}, min_kept=4)
 
 
 MUTANTS = [
